@@ -9,14 +9,35 @@
 #include "Array.c"
 
 enum { KIND_ARRAY, KIND_LIST, KIND_TUPLE };
-enum { ET_INT, ET_FLOAT, ET_STR, ET_PE };
+enum { ET_INT, ET_FLOAT, ET_STR, ET_PE, ET_REC, ET_COUNT };
 static const char* KINDNAME[3] = { "Array", "List", "Tuple" };
-static const char* ETNAME[4] = { "Int", "Float", "String", "PElem" };
+static const char* ETNAME[ET_COUNT] = { "Int", "Float", "String", "PElem", "Rec12" };
+
+/* a plain 12-byte record without any instance: eq / cmp / assign / swap are the byte-wise defaults over size(type)
+   bytes, and 12 is not a multiple of the word size.  Bytes 0..7: the value, biased and big-endian (byte order ==
+   numeric order); bytes 8..11: a checksum of the value, so a torn record decodes to a value that was never stored. */
+static var Rec12;
+struct Rec12 { unsigned char b[12]; };
+static void rec12_fill(unsigned char* b, int64_t v) {
+  uint64_t u = (uint64_t)v + ((uint64_t)1 << 62);
+  for (int i = 0; i < 8; i++) { b[i] = (unsigned char)(u >> (56 - 8 * i)); }
+  uint32_t c = (uint32_t)((uint64_t)v * 2654435761u) ^ 0xA5A5A5A5u;
+  memcpy(b + 8, &c, 4);
+}
+static int64_t rec12_value(const unsigned char* b) {
+  uint64_t u = 0;
+  for (int i = 0; i < 8; i++) { u = (u << 8) | b[i]; }
+  int64_t v = (int64_t)(u - ((uint64_t)1 << 62));
+  uint32_t c = (uint32_t)((uint64_t)v * 2654435761u) ^ 0xA5A5A5A5u, got;
+  memcpy(&got, b + 8, 4);
+  return got == c ? v : (int64_t)0x7ead7ead00000000 + (int64_t)(got & 0xffff);   /* torn record */
+}
+static var rec12_init(char* buf, int64_t v) { var o = header_init(buf, Rec12, AllocStack); rec12_fill(o, v); return o; }
 enum { MAXLEN = 2600 };
 
 struct seq { int kind, et; var c; int64_t m[MAXLEN]; int n; };
 
-static var etype(int et) { return et == ET_INT ? Int : et == ET_FLOAT ? Float : et == ET_STR ? String : PElem; }
+static var etype(int et) { return et == ET_INT ? Int : et == ET_FLOAT ? Float : et == ET_STR ? String : et == ET_REC ? Rec12 : PElem; }
 
 /* read an element's value back */
 static int64_t elem_value(int et, var e) {
@@ -24,6 +45,7 @@ static int64_t elem_value(int et, var e) {
     case ET_INT: return ((struct Int*)e)->val;
     case ET_FLOAT: return (int64_t)((struct Float*)e)->val;
     case ET_STR: return strtoll(((struct String*)e)->val + 1, NULL, 10) - 1000000;   /* fixed width: byte order == numeric order */
+    case ET_REC: return rec12_value(e);
     default: return ((struct PElem*)e)->id;
   }
 }
@@ -32,9 +54,10 @@ static int64_t elem_value(int et, var e) {
    The macro keeps the compound literals alive for the enclosing block. */
 #define MKVAL(S, V, OUT) \
   char vh__b[32]; snprintf(vh__b, sizeof vh__b, "s%07" PRId64, (int64_t)(V) + 1000000); \
+  char vh__r[sizeof(struct Header) + 16]; \
   var OUT = (S)->kind == KIND_TUPLE ? (var)new(Int, $I(V)) : \
             (S)->et == ET_INT ? (var)$I(V) : (S)->et == ET_FLOAT ? (var)$F((double)(V)) : \
-            (S)->et == ET_STR ? (var)$S(vh__b) : (var)PE_KEY((V), (uint64_t)(V))
+            (S)->et == ET_STR ? (var)$S(vh__b) : (S)->et == ET_REC ? rec12_init(vh__r, (V)) : (var)PE_KEY((V), (uint64_t)(V))
 
 static var seq_new(struct seq* s, int kind, int et) {
   s->kind = kind; s->et = kind == KIND_TUPLE ? ET_INT : et; s->n = 0;
@@ -287,7 +310,8 @@ static void one_op(vh_rng* r, struct seq* s, int maxlen, char* opd, size_t opcap
     memcpy(s->m, o.m, sizeof(int64_t) * (size_t)o.n); s->n = o.n;
     check_seq(&o, opd, "assign-source");
     /* mutate the source, the target must not change (deep copy) -- tuples share element objects by design */
-    if (o.kind != KIND_TUPLE && o.n > 0) { set(o.c, $I(0), o.et == ET_INT ? (var)$I(777777) : o.et == ET_FLOAT ? (var)$F(777777.0) : o.et == ET_STR ? (var)$S("s1777777") : (var)PE_KEY(777777, 1)); }
+    char rbuf[sizeof(struct Header) + 16];
+    if (o.kind != KIND_TUPLE && o.n > 0) { set(o.c, $I(0), o.et == ET_INT ? (var)$I(777777) : o.et == ET_FLOAT ? (var)$F(777777.0) : o.et == ET_STR ? (var)$S("s1777777") : o.et == ET_REC ? rec12_init(rbuf, 777777) : (var)PE_KEY(777777, 1)); }
     del(o.c);
     vh_count("assign");
   } else {
@@ -353,7 +377,7 @@ static void run_seq_case(vh_rng* r, int kind, int et, int nops, int maxlen, int 
 
 static void case_random(vh_rng* r, long index) {
   int kind = (int)(index % 3);
-  int et = (int)((index / 3) % 4);
+  int et = (int)((index / 3) % ET_COUNT);
   int profile = (index % 7 == 0) ? 1 : 0;
   static const int ML[] = { 2, 5, 9, 17, 40, 90, 200, 600 };
   int maxlen = ML[vh_below(r, vh.thorough ? 8 : 6)];
@@ -367,7 +391,7 @@ static void case_random(vh_rng* r, long index) {
 static void sort_cases(vh_rng* r) {
   for (int kind = 0; kind < 3; kind += 2) {
     for (int shape = 0; shape < 5; shape++) {
-      for (int et = 0; et < (kind == KIND_TUPLE ? 1 : 4); et++) {
+      for (int et = 0; et < (kind == KIND_TUPLE ? 1 : ET_COUNT); et++) {
         struct seq s;
         seq_new(&s, kind, et);
         int n = shape == 2 ? 1500 : 120 + (int)vh_below(r, 200);
@@ -398,7 +422,7 @@ static void fixed(void) {
   vh_rng r; vh_rng_seed(&r, 4242);
   sort_cases(&r);
   for (int kind = 0; kind < 3; kind++) {
-    for (int et = 0; et < (kind == KIND_TUPLE ? 1 : 4); et++) {
+    for (int et = 0; et < (kind == KIND_TUPLE ? 1 : ET_COUNT); et++) {
       vh.oplen = 0; vh.oplog[0] = 0; vh.nops = 0;
       run_seq_case(&r, kind, et, 700, 300, 1);
       vh.oplen = 0; vh.oplog[0] = 0; vh.nops = 0;
@@ -410,5 +434,6 @@ static void fixed(void) {
 int main(int argc, char** argv) {
   probes_init();
   pe_prop = "C04";
+  Rec12 = new_root(Type, $S("Rec12"), $I(12));
   return vh_run(argc, argv, "seq", fixed, case_random);
 }
